@@ -46,6 +46,9 @@ pub enum Mutation {
     Bomb { at: u16, mib: u8 },
     /// garbage appended to / replacing the dictionary bytes (valid checksum)
     DictGarbage { seed: u32, replace: bool },
+    /// a metadata entry whose key is `ascii` ASCII bytes, then `wide` characters of 2 / 3 / 4 UTF-8 bytes, then `tail`
+    /// ASCII bytes (a legitimate dictionary: keys are arbitrary strings); value of `value_len` bytes
+    MetadataKey { ascii: u8, wide: u8, width: u8, tail: u8, value_len: u16 },
 }
 
 #[derive(Clone, Debug, Serialize, Deserialize, PartialEq)]
@@ -127,6 +130,7 @@ fn mutation_strategy() -> impl Strategy<Value = Mutation> {
         1 => prop_oneof![Just(0u8), Just(1), Just(63), Just(65)].prop_map(Mutation::SourceChecksumLen),
         1 => (any::<u16>(), prop_oneof![Just(1u8), Just(4), Just(16)]).prop_map(|(at, mib)| Mutation::Bomb { at, mib }),
         1 => (any::<u32>(), any::<bool>()).prop_map(|(seed, replace)| Mutation::DictGarbage { seed, replace }),
+        2 => (prop_oneof![0u8..140, 28u8..36, 60u8..68], 1u8..4, 2u8..5, 0u8..20, prop_oneof![Just(0u16), 0u16..300, Just(5000u16)]).prop_map(|(ascii, wide, width, tail, value_len)| Mutation::MetadataKey { ascii, wide, width, tail, value_len }),
     ]
 }
 
@@ -231,6 +235,19 @@ pub fn build_mutated(source: &[u8], cfg: &ArchCfg, muts: &[Mutation]) -> Option<
             Mutation::NoCompression => d.chunk_compression = None,
             Mutation::SourceTotalSize(v) => d.source_total_size = *v,
             Mutation::SourceChecksumLen(l) => d.source_checksum.resize(*l as usize, 0x22),
+            Mutation::MetadataKey { ascii, wide, width, tail, value_len } => {
+                let ch = match width {
+                    2 => 'é',
+                    3 => '✓',
+                    _ => '𝄞',
+                };
+                let mut k = "k".repeat(*ascii as usize);
+                for _ in 0..*wide {
+                    k.push(ch);
+                }
+                k.push_str(&"z".repeat(*tail as usize));
+                d.metadata.insert(k, vec![0x6d; *value_len as usize]);
+            }
             Mutation::Bomb { at, mib } if nd > 0 && cfg.comp != Comp::None => {
                 let b = bomb(cfg.comp, *mib);
                 let i = idx(*at, nd);
